@@ -298,7 +298,7 @@ func TestC12(t *testing.T) {
 	nprobe := 30
 
 	// route.md demo: basic table + advanced table with ADVANCED_MODE hand-over
-	{
+	if !skipFixed {
 		demoBasic := []basicRule{
 			{Hosts: []string{"www.p1.com"}, Paths: []string{"/a/*"}, Cluster: "k1"},
 			{Hosts: []string{"www.p1.com"}, Paths: []string{"/a/b"}, Cluster: "k2"},
